@@ -876,6 +876,11 @@ func init() {
 		r.Phase("vector processing orders", func() { processingOrders(r, thorough) })
 		r.Phase("neighbour processing orders", func() { neighbourOrders(r, thorough) })
 		r.Phase("first use in fresh processes", func() { firstUse(r, decodeFirstUseEntries([]int{3, 2}, []int{0, 1, 2})) })
+		r.Phase("other process histories and environments", func() {
+			historyVariantsFor(r, 3, 0)
+			historyVariantsFor(r, 2, 0)
+			historyAndEnvironment(r, [][]string{{"reports", "ja"}, {"reports", "und"}, {"namesall", "und"}, {"namesall", "ja"}}, []string{"v2-first", "both"})
+		})
 		r.Phase("map iteration orders", func() { mergeMapOrder(r) })
 		r.Set("exhaustive", r.Get("history_search_caps_hit") == 0)
 		r.Set("rule", "breadth-first search over operation sequences (queries: Score, Severity, GetError, Encode, String, BaseMetrics, TemporalMetrics, IsEmpty, report.New* en/ja, ExportWithString; single-field mutations; decodes of other colliding vectors on fresh objects) applied to live objects (decoded at every level and version, left behind by failed decodes, fresh, nil); state key = reflective dump of the live object + dump of every package-level variable of every library package (generated at check time from the current tree); successors by replay on a fresh object; invariants I1-I3 of DESIGN.md 5.3; plus all orders of processing 6 colliding vectors up to depth 3/4, plus every ordered pair (u, v) of the single-metric neighbours (every alternative value of every metric, and the other version) of background vectors: v processed after u must give what v gives first")
